@@ -16,6 +16,7 @@ def runBlock (hdr : String) (lines : Array String) : String :=
   match (hdr.splitOn " ").filter (· ≠ "") with
   | "S" :: "timeout" :: _ => (validate timeoutModel lines).render
   | "S" :: "oracle" :: _ => runOracle lines
+  | "S" :: "replay" :: "wake" :: _ => Replay.Wake.run lines
   | "S" :: "replay" :: "mefuture" :: _ => Replay.MeFuture.run lines
   | "S" :: "replay" :: "cos" :: _ => Replay.CoS.run lines
   | "S" :: "replay" :: "shutdown" :: _ => Replay.Shutdown.run ((hdr.splitOn " ").filter (· ≠ "")) lines
